@@ -392,7 +392,9 @@ def tasks_for(tier, seed):
             es = list(range(emax + 1))
         for e in es:
             t.append(('FloatingPointHelper %s exponent field %d' % (fmt, e), float_task, {'fmt': fmt, 'e': e}))
-    return t
+    # the long-running sp/dp arithmetic tasks first, so that they overlap with the many short ones
+    heavy = [x for x in t if x[0].startswith('FPNum arithmetic dp')] + [x for x in t if x[0].startswith('FPNum arithmetic sp')]
+    return heavy + [x for x in t if x not in heavy]
 
 
 def main(argv=None):
